@@ -262,7 +262,13 @@ func (d *Decoder) More() bool {
 }
 
 func (d *Decoder) Token() (Token, error) {
-	return d.s.Token()
+	tok, err := d.s.Token()
+	if rerr := d.s.ReadErr(); rerr != nil {
+		// the reader failed while this token was being read: the token may be
+		// cut short, and the input has not come to a clean end
+		return nil, rerr
+	}
+	return tok, err
 }
 
 // DisallowUnknownFields causes the Decoder to return an error when the destination
